@@ -12,6 +12,9 @@ From L2 Require Import Model Base Own Jobs.
 #[export] Instance fuse_eq_dec : EqDecision fuse. Proof. solve_decision. Defined.
 #[export] Instance cop_eq_dec : EqDecision cop. Proof. solve_decision. Defined.
 #[export] Instance kont_eq_dec : EqDecision kont. Proof. solve_decision. Defined.
+#[export] Instance ystate_eq_dec : EqDecision ystate. Proof. solve_decision. Defined.
+#[export] Instance ypc_eq_dec : EqDecision ypc. Proof. solve_decision. Defined.
+#[export] Instance ydat_eq_dec : EqDecision ydat. Proof. solve_decision. Defined.
 #[export] Instance frame_eq_dec : EqDecision frame. Proof. solve_decision. Defined.
 
 Definition posb (n : nat) : bool := match n with 0 => false | S _ => true end.
